@@ -11,10 +11,10 @@ use crate::{
             Product, Quotient, Sum, True, Type, Unifier, Variable,
         },
     },
-    unifier::unify,
+    unifier::{collect_unifiers, unify},
 };
 use scopeguard::defer;
-use std::{cell::RefCell, path::Path, rc::Rc};
+use std::{cell::RefCell, collections::HashSet, path::Path, rc::Rc};
 
 // This is the top-level type checking function. It returns the pair `(elaborated_term, type)`.
 // Invariants:
@@ -37,6 +37,26 @@ pub fn type_check<'a>(
         definitions_context,
         &mut errors,
     );
+
+    // Every hole must have been filled in by now. A program with a part that could not be inferred
+    // has no meaning at run time.
+    if errors.is_empty() {
+        let mut unifiers = vec![];
+        #[allow(clippy::mutable_key_type)]
+        let mut visited = HashSet::new();
+        collect_unifiers(&elaborated_term, &mut unifiers, &mut visited);
+
+        if !unifiers.is_empty() {
+            errors.push(throw::<Error>(
+                "Unable to infer part of this program:",
+                source_path,
+                term.source_range
+                    .map(|source_range| listing(source_contents, source_range))
+                    .as_deref(),
+                None,
+            ));
+        }
+    }
 
     if errors.is_empty() {
         Ok((elaborated_term, term_type))
